@@ -755,12 +755,12 @@ func c39Ints(r []int) string {
 func TestC39(t *testing.T) {
 	pbt.Run(t, "C39",
 		"op lists (1..40 ops: subscribe to a subset of 3 types, post 1..40 events of one of 4 types, unsubscribe, stop, partial/full non-blocking drain; <= 5 subscribers, <= 1200 events so the 65536-slot buffers never fill) executed on event.Dispatcher and a model, buffer lengths compared after every op and contents at every drain; Post must return nil before and ErrMuxClosed after Stop; 30 s watchdog on hangs only; non-trivial = a subscriber received an event of a type, unsubscribed, and that type was posted again; distinct by op list",
-		pbt.Options{Sub: "sequential", Checks: pbt.Per(4000, 480000),
+		pbt.Options{Sub: "sequential", Checks: pbt.Per(4000, 240000),
 			MinClass: map[string]int{"post-after-stop": 50, "sub-after-stop": 20, "unsub-again-or-after-stop": 50, "nontrivial-seq": 200}},
 		c39Gen, c39Exec)
 	pbt.Run(t, "C39",
 		"one poster goroutine per type (0..300 events, generated yield period), 1..2 controller goroutines doing subscribe/unsubscribe/stop once a poster reached a generated progress mark, 0..2 subscriptions made up front; schedule-independent oracle from progress counters published around every call: received events per type form a gap-free increasing run that covers every event whose Post started after Subscribe returned and finished before Unsubscribe/Stop was called, and contains no event finished before Subscribe was called, started after Unsubscribe/Stop returned or whose Post returned ErrMuxClosed; Post fails only after Stop was called and always after Stop returned; non-trivial = an explicitly unsubscribed subscriber with a non-empty must-window and posts of that type after its unsubscription; meant to run under -race",
-		pbt.Options{Sub: "concurrent", Checks: pbt.Per(1500, 120000),
+		pbt.Options{Sub: "concurrent", Checks: pbt.Per(1500, 240000),
 			MinClass: map[string]int{"must-window-nonempty": 100, "with-stop": 50, "nontrivial-conc": 50}},
 		c39CGen, c39CExec)
 }
